@@ -42,10 +42,10 @@ def sortNum (xs : List Nat) : List Nat :=
   xs.foldl (fun acc n => let (a, b) := acc.span (· ≤ n); a ++ n :: b) []
 
 /-- one arrival at the read loop -/
-def arrive (st : St) (seq : Nat) : St :=
+def arrive (st : St) (seq : Nat) (len : Nat := 17) : St :=
   let (stats1, first) := st.stats.store seq false
   let (ring1, _) := Cache.store st.ring { seqno := seq, marker := false, ts := seq * 3000 % 4294967296,
-                                           bytes := List.replicate 17 0 }
+                                           bytes := List.replicate len 0 }
   let st := { st with stats := stats1, ring := ring1 }
   let st :=
     match readLoopNackArg seq first st.rate with
@@ -86,6 +86,27 @@ def step (st : St) (op impl : List String) : St × Verdict :=
       if impl = ["lost"] then ({ st with dead := true }, .ok)   -- UDP loss on loopback: abandon the case
       else (arrive st s, cmp "stored" impl)
     | none => (st, .badop "send")
+  | ["sendx", seq, pad] =>
+    -- a packet with a header extension and `pad` bytes of padding: what is stored (and later sent to every receiver) is the
+    -- same packet without the extension: fixed header, the 5 payload bytes, the padding (zeros, the last byte its length)
+    match nat? seq, nat? pad with
+    | some s, some k =>
+      if impl = ["lost"] then ({ st with dead := true }, .ok)
+      else
+        let payload := [0x10, 0x01, s / 256, s % 256, 0x55]
+        let b0 := if k = 0 then 128 else 160
+        let st' := arrive st s (17 + k)
+        -- (the content of the padding is not significant, only its length, which is its last byte: pion's MarshalTo
+        -- leaves whatever the buffer held there)
+        match impl with
+        | ["stored", n, b, tail] =>
+          let body := (unhex tail).getD []
+          let ok := n = toString (17 + k) && b = toString b0 && body.length = 5 + k && body.take 5 = payload &&
+            (k = 0 || body.getLast? = some k)
+          if ok then (st', .ok)
+          else (st', .oracle s!"C02: packet {s} was received with a header extension, 5 bytes of payload ({hex payload}) and {k} bytes of padding; what the read loop stored for forwarding is {n} bytes, first byte {b}, body {tail}; expected the same packet without the extension: {17 + k} bytes, first byte {b0}, the payload, and {k} bytes of padding ending in {k}")
+        | _ => (st', .mismatch s!"stored {17 + k} {b0} <payload+padding>")
+    | _, _ => (st, .badop "sendx")
   | ["getpacket", seq] =>
     match nat? seq with
     | some s =>
